@@ -63,12 +63,19 @@ func tokenize(query string) ([]token, error) {
 
 	var tokens []token
 	for _, field := range fields {
-		chunks, err := splitFunc(field, func(r rune) bool { return r == ':' })
+		separators := 0
+		chunks, err := splitFunc(field, func(r rune) bool {
+			if r == ':' {
+				separators++
+			}
+			return r == ':'
+		})
 		if err != nil {
 			return nil, err
 		}
 
-		if strings.HasPrefix(field, ":") || strings.HasSuffix(field, ":") {
+		// n unquoted colons must separate n+1 non-empty chunks
+		if separators != len(chunks)-1 {
 			return nil, fmt.Errorf("empty qualifier or value")
 		}
 
